@@ -23,6 +23,121 @@ EPS8 = "1/100000000"
 KINDS = ("qst", "povmt", "qpt", "qmpt")
 
 
+# ----------------------------------------------------------------------------- translator: source -> lean/QGen/C19.lean
+class Untranslatable(Exception):
+    pass
+
+
+def _fn_src(rel, name, cls=None):
+    import ast, os, common
+    tree = ast.parse(open(os.path.join(common.REPO, rel), encoding="utf-8").read())
+    nodes = tree.body
+    if cls is not None:
+        cn = [n for n in nodes if isinstance(n, ast.ClassDef) and n.name == cls]
+        if not cn:
+            raise Untranslatable(f"{rel}: class {cls} not found")
+        nodes = cn[0].body
+    fn = [n for n in nodes if isinstance(n, ast.FunctionDef) and n.name == name]
+    if not fn:
+        return None
+    b = fn[0].body
+    if b and isinstance(b[0], ast.Expr) and isinstance(b[0].value, ast.Constant) and isinstance(b[0].value.value, str):
+        b = b[1:]
+    return [ast.unparse(x) for x in b]
+
+
+def _need(rel, name, cls=None):
+    b = _fn_src(rel, name, cls)
+    if b is None:
+        raise Untranslatable(f"{rel}: {(cls + '.') if cls else ''}{name} not found")
+    return b
+
+
+def _one(lines, pattern, where):
+    import re
+    hits = [m for l in lines for m in [re.fullmatch(pattern, l)] if m]
+    if len(hits) != 1:
+        raise Untranslatable(f"{where}: expected exactly one statement matching `{pattern}`, found {len(hits)}")
+    return hits[0]
+
+
+def translate(ctx):
+    """constants and formula skeletons of the anchored functions, regenerated on every run"""
+    import os, common
+    from fractions import Fraction
+    MU, DA = "quara/utils/matrix_util.py", "quara/data_analysis/data_analysis.py"
+    SQ = "quara/protocol/qtomography/standard/standard_qtomography.py"
+    SP, SM = "quara/protocol/qtomography/standard/standard_povmt.py", "quara/protocol/qtomography/standard/standard_qmpt.py"
+    try:
+        cov = _need(MU, "calc_covariance_mat")
+        cov_ok = cov == ["mat = np.diag(q) - np.array([q]).T @ np.array([q])", "return mat / n"]
+        if not cov_ok:
+            raise Untranslatable(f"{MU}: calc_covariance_mat body {cov} is not `(diag q - q qT) / n`")
+        ddof = int(_one(_need(MU, "calc_mse_prob_dists"), r"std = np\.std\(se_list, dtype=np\.float64, ddof=(\d+)\)", MU).group(1))
+        ddof2 = int(_one(_need(DA, "_calc_mse_linear_analytical_mode_qoperation"),
+                         r"if with_std:\n    std = np\.std\(points, dtype=np\.float64, ddof=(\d+)\)\n    return \(mse, std\)\nelse:\n    return mse", DA).group(1))
+        eps = {}
+        for fn in ("calc_fisher_matrix", "replace_prob_dist", "calc_fisher_matrix_total"):
+            eps[fn] = Fraction(_one(_need(MU, fn), r"eps = eps if eps is not None else ([0-9.e\-]+)", f"{MU}:{fn}").group(1))
+        size_expr = _one(_need(MU, "calc_fisher_matrix_total"), r"matrix_size = (.+)", MU).group(1)
+        if size_expr != "len(grad_prob_dists[0][0])":
+            raise Untranslatable(f"{MU}: calc_fisher_matrix_total sizes its accumulator by `{size_expr}`")
+        inner = _one(_need(MU, "calc_fisher_matrix_total"), r"for index in range\(size_prob_dists\):\n    matrix \+= (.+)", MU).group(1)
+        if inner != "weights[index] * calc_fisher_matrix(prob_dists[index], grad_prob_dists[index], eps=eps)":
+            raise Untranslatable(f"{MU}: calc_fisher_matrix_total accumulates `{inner}`")
+        sq = _one(_need(MU, "calc_direct_sum"), r"for i, diag in enumerate\(matrices\):\n(?:.|\n)*if diag\.shape\[0\] != diag\.shape\[(\d)\]:(?:.|\n)*", MU).group(1)
+        if _need(MU, "calc_conjugate") != ["return x @ v @ x.T"]:
+            raise Untranslatable(f"{MU}: calc_conjugate is not `x @ v @ x.T`")
+        li = _one(_need(MU, "calc_left_inv"), r"left_inv = (.+)", MU).group(1)
+        if li != "np.linalg.pinv(matrix.T @ matrix) @ matrix.T":
+            raise Untranslatable(f"{MU}: calc_left_inv computes `{li}`")
+        mats_off = int(_one(_need(SP, "_generate_matS", "StandardPovmt"), r"I_list = \[I for _ in range\(self\._num_outcomes - (\d+)\)\]", SP).group(1))
+        _one(_need(SP, "_generate_matS", "StandardPovmt"), r"matS = np\.hstack\(I_list\)", SP)
+        base_qop = _need(SQ, "_calc_mse_linear_analytical_mode_qoperation", "StandardQTomography") == \
+            ["return self._calc_mse_linear_analytical_mode_var(qope, data_num_list)"]
+        var_mode = _need(SQ, "_calc_mse_linear_analytical_mode_var", "StandardQTomography") == \
+            ["val = np.trace(self.calc_covariance_linear_mat_total(qope, data_num_list))", "return val"]
+        crb = _need(SQ, "_calc_cramer_rao_bound", "StandardQTomography") == \
+            ["weights = [tmp_N / N for tmp_N in list_N]", "fisher = self.calc_fisher_matrix_total(var, weights)",
+             "val = np.trace(np.linalg.inv(fisher)) / N", "return val"]
+        if not (base_qop and var_mode and crb):
+            raise Untranslatable(f"{SQ}: base-class object-mode / var-mode / CRB bodies changed ({base_qop}, {var_mode}, {crb})")
+        qmpt_qop = _fn_src(SM, "_calc_mse_linear_analytical_mode_qoperation", "StandardQmpt") is not None
+        qmpt_crb = _fn_src(SM, "calc_cramer_rao_bound", "StandardQmpt") is not None
+        povm_qop = _need(SP, "_calc_mse_linear_analytical_mode_qoperation", "StandardPovmt")
+        povm_sum = any("val = val_1st_term + val_2nd_term" in l for l in povm_qop) and any("if qope.on_para_eq_constraint:" in l for l in povm_qop)
+        if not povm_sum:
+            raise Untranslatable(f"{SP}: POVM object-mode MSE is no longer `first term + second term` under the flag")
+        fq = _need(SQ, "calc_fisher_matrix", "StandardQTomography")
+        size_pd = _one(fq, r"size_prob_dist = (.+)", SQ).group(1)
+        if size_pd != "int(len(matA) / self.num_schedules)":
+            raise Untranslatable(f"{SQ}: calc_fisher_matrix slices by `{size_pd}`")
+    except Untranslatable as e:
+        return [f"translator (QGen/C19.lean): {e}"]
+
+    def rat(fr):
+        return f"mkRat {fr.numerator} {fr.denominator}"
+    L = ["/-! GENERATED by harness/c19.py:translate from the anchored sources on every run — do not edit.",
+         "The formula skeletons (`calc_covariance_mat`, `calc_conjugate`, `calc_left_inv`, Fisher accumulation, base-class object mode,",
+         "CRB, row slicing) are matched statement by statement by the translator (it fails loudly otherwise); the constants below are",
+         "read from the source. -/", "namespace QGen.C19", "",
+         f"/-- `ddof` of `np.std` in `matrix_util.calc_mse_prob_dists` / `data_analysis.calc_mse_qoperations` -/",
+         f"def ddofMseProbDists : Nat := {ddof}", f"def ddofMseQoperations : Nat := {ddof2}",
+         "/-- default `eps` of `calc_fisher_matrix`, `replace_prob_dist`, `calc_fisher_matrix_total` -/",
+         f"def epsFisher : Rat := {rat(eps['calc_fisher_matrix'])}", f"def epsReplace : Rat := {rat(eps['replace_prob_dist'])}",
+         f"def epsFisherTotal : Rat := {rat(eps['calc_fisher_matrix_total'])}",
+         "/-- `_generate_matS`: `num_outcomes - matSOffset` identity blocks -/", f"def matSOffset : Nat := {mats_off}",
+         "/-- the axis `calc_direct_sum` compares `shape[0]` with -/", f"def directSumSquareAxis : Nat := {sq}",
+         "/-- does `StandardQmpt` override the object-mode MSE / the Cramér–Rao bound of the base class? -/",
+         f"def qmptOverridesQop : Bool := {'true' if qmpt_qop else 'false'}", f"def qmptOverridesCrb : Bool := {'true' if qmpt_crb else 'false'}",
+         "", "end QGen.C19", ""]
+    path = os.path.join(common.LEAN, "QGen", "C19.lean")
+    new = "\n".join(L)
+    if not os.path.exists(path) or open(path).read() != new:
+        open(path, "w").write(new)
+    return []
+
+
 # ----------------------------------------------------------------------------- tomography builders
 def _tester_states(g, c, n, pure_first=True):
     out = []
@@ -458,6 +573,17 @@ def correspondence(ctx):
                 ask_num("crbpovm", key, crb, true.dim ** 2, mo, qlist(Finv.flatten()), Ntot, tol=1e-7)
             else:
                 ask_num("crb", key, crb, Finv.shape[0], qlist(Finv.flatten()), Ntot, tol=1e-7)
+    # ---- the implied-element maps: _generate_matS of the real POVM tomography; Jacobian rows of the implied first row of a
+    #      real MProcess (stacked vector as a function of the variables) = -matSQmpt
+    for mo in (2, 3) if ctx.quick else (2, 3, 4):
+        qtp, _, _ = build(gq, "povmt", True, mo=mo)
+        ask_mat("mats", ("povmt", mo), impl_mat(lambda: qtp._generate_matS()), 4, mo)
+        qtm, _, _ = build(gq, "qmpt", True, m=2, mo=mo)
+        J, _ = jacobian_stacked(qtm)
+        d2 = 4
+        rows = J[(mo - 1) * d2 * d2:(mo - 1) * d2 * d2 + d2]
+        ask_mat("matsqmpt", ("qmpt", mo), impl_mat(lambda: -rows), d2, mo)
+        ctx.case(("implied-maps", mo), sample={"op": "matS / implied-row Jacobian", "outcomes": mo})
     # ---- exact expectation (model enumerates the multinomial law in exact rationals) vs analytical value
     ge = ctx.npgen(3)
     nmax = 5 if ctx.quick else 8
